@@ -29,6 +29,64 @@ def parseKeyBranch (raw : Bytes) (contentType : String) : Outcome Branch :=
         (slice raw 0 5).bind fun p => if p == dashes then .ok .pem else .ok .symmetric
       else .ok .symmetric
 
+/-! ### The sniffing prefix with the guarded value and the sliced value kept apart
+
+`parseKeyBranch` above reads the marker from the very value whose length the guard tests.  The
+definitions below do not take that for granted: the length guard (`bound`) tests `raw`, the slice
+expression (`hi`) is applied to `view raw`, a Go slice value with its own length and capacity.
+`view = id` is the code; `view = trimLeftBlanks` is a parser that sniffs the marker on
+`bytes.TrimLeft(raw, " \t\r\n")` (seeded change C07-r5m1).  `Props/C07.lean` proves that the
+first never panics, characterises when an arbitrary `view` does, and ties `view = id`, `bound` and
+`hi` to the regenerated facts (`Generated.C07.constBounds`). -/
+
+/-- a Go `[]byte` value: the bytes up to `len` and the number of spare elements behind them
+(`cap = len + spare`) -/
+structure GoSlice where
+  data : Bytes
+  spare : Nat := 0
+  deriving Repr, DecidableEq
+
+def GoSlice.len (s : GoSlice) : Nat := s.data.length
+def GoSlice.cap (s : GoSlice) : Nat := s.data.length + s.spare
+
+/-- `s[lo:hi]` on a slice value: Go checks `hi` against the CAPACITY; the elements between `len`
+and `cap` are whatever the array holds (`fill`). -/
+def sliceCap (fill : UInt8) (s : GoSlice) (lo hi : Nat) : Outcome Bytes :=
+  if lo ≤ hi ∧ hi ≤ s.cap then .ok (((s.data ++ List.replicate s.spare fill).drop lo).take (hi - lo))
+  else .panic "slice bounds out of range"
+
+/-- the cutset `" \t\r\n"` -/
+def isBlank (c : UInt8) : Bool := c == 32 || c == 9 || c == 13 || c == 10
+
+/-- `bytes.TrimLeft(s, " \t\r\n")`: `nil` (length and capacity 0) when every byte is trimmed,
+otherwise `s[i:]`, whose capacity shrinks together with its length. -/
+def trimLeftBlanks (s : GoSlice) : GoSlice :=
+  match s.data.dropWhile isBlank with
+  | [] => { data := [], spare := 0 }
+  | c :: rest => { data := c :: rest, spare := s.spare }
+
+/-- does the heuristic reach the PEM case's slice expression? (non-empty input, no recognised
+content type, not taken for a JWK, longer than `bound`) -/
+def sniffReached (bound : Nat) (raw : Bytes) (contentType : String) : Bool :=
+  raw.length != 0 && !(contentType == "application/json")
+    && !(contentType == "application/x-pem-file" || contentType == "application/pkcs8")
+    && !(raw.head? == some 123 && raw.length != 16 && raw.length != 24 && raw.length != 32)
+    && decide (raw.length > bound)
+
+/-- `ParseKey`'s heuristic with the guard `len(raw) > bound` and the slice `(view raw)[0:hi]`. -/
+def parseKeyBranchOn (bound hi : Nat) (fill : UInt8) (view : GoSlice → GoSlice) (raw : GoSlice)
+    (contentType : String) : Outcome Branch :=
+  let l := raw.len
+  if l == 0 then .err "key is empty"
+  else if contentType == "application/json" then .ok .jwk
+  else if contentType == "application/x-pem-file" || contentType == "application/pkcs8" then .ok .pem
+  else
+    (idx raw.data 0).bind fun c0 =>
+      if c0 == 123 && l != 16 && l != 24 && l != 32 then .ok .jwk
+      else if l > bound then
+        (sliceCap fill (view raw) 0 hi).bind fun p => if p == dashes then .ok .pem else .ok .symmetric
+      else .ok .symmetric
+
 /-! ### `parseSymmetricKey` -/
 
 /-- `bytes.TrimRight(raw, "\n=")` -/
